@@ -83,6 +83,12 @@ pub fn run(ctx: &Ctx) -> ! {
                 distinct.lock().unwrap().insert(crate::common::fnv(format!("{}|{}", case.cq.text, case.ds.name).as_bytes()));
             }
         };
+    let mut cfg = cfg;
+    cfg.extra.push(("two-edge structures + one deviation of any kind", {
+        let mut x = corpus::structures_any_cfg(&uni);
+        x.only_datasets = Some(vec!["diamond", "fan3", "counts0123"]);
+        x
+    }));
     let stats = corpus::drive(ctx, &uni, &cfg, &per_query, &per_case, &|_, _| {});
     // second space: every arrangement of up to three edges (next / one; plain, @optional, @fold,
     // @recurse(2)) each carrying an output, + up to one more deviation: nested folds inside / around
